@@ -302,7 +302,9 @@ package syncer
 
 //@ func RedisOutput.rdbReplay
 //@   arith int
-//@   properties C04
+//@   properties C04 C10
+//@   opaque SpecNsKey
+//@   assert at call Replay: bisync_bookkeeping_keys_are_never_replayed [C10]: !SpecNsKey(string(e.Key))
 //@   ghost var ended mathint = 0
 //@   ghost var ctxDone mathint = 0
 //@   set ctxDone = 1 after recv ctx.Done()
@@ -402,7 +404,9 @@ package syncer
 //   probedB  result of the EXISTS probe (-1 none, 0 absent, 1 present); policyB the policy in force at the probe
 //@ func RedisOutput.buildBisyncRdbReplayUnit
 //@   arith int
-//@   properties C20
+//@   properties C20 C10
+//@   opaque SpecNsKey
+//@   ensures the_tools_own_bookkeeping_keys_are_never_replayed [C10]: e != nil && old(SpecNsKey(string(e.Key))) ==> result0 == nil && result1 && result2 == nil
 //@   ghost var probedB mathint = 0 - 1
 //@   ghost var policyB string
 //@   requires nonnil [C20]: ro != nil && conn != nil && state != nil
@@ -856,3 +860,7 @@ func SpecContains(s string, sub string) bool { return false }
 //@   modifies heap, phase, curDb, cpDb
 //@   ensures failed_attempt_keeps_the_previous_id: result != nil ==> ro.cfg.RunId == old(ro.cfg.RunId)
 //@   ensures successful_attempt_adopts_the_new_id: result == nil ==> ro.cfg.RunId == id
+
+// ---- the tool's own bisync bookkeeping found in a source is never replayed (C10) --------------
+// (the checkpoint namespaces are withheld by the output filter's prefix black list; the bisync
+// namespace cannot be put there because the bisync stream parser must see the marker writes)
